@@ -152,3 +152,4 @@ MANIFEST = {
     'note': 'Trusted: README table of required parameters and the bounds listed in the property. '
             'Bounds the parser does not claim (e.g. skew <= 0) are not asserted.',
 }
+MANIFEST['text'] += (' ' + 'Half of the cases use a nested -o path whose parent does not exist; 10% are preceded by an unrelated Generator run.')
